@@ -285,6 +285,7 @@ var fresh = regexp.MustCompile(`^v([0-9]+)_$`)
 // occurrences in order: k>0 for the k-th declared Var, -(name index) for names that stayed as they were, uses pairs).
 func observe(ast *js.AST, names []string) (string, []int, [][2]int) {
 	roots := []*js.Var{}
+	freeUses := map[string]int{} // name -> sum of Uses over the undeclared Vars of that name
 	seen := map[*js.Var]bool{}
 	for _, v := range allVars(ast) {
 		r := root(v)
@@ -292,6 +293,8 @@ func observe(ast *js.AST, names []string) (string, []int, [][2]int) {
 			seen[r] = true
 			if r.Decl != js.NoDecl {
 				roots = append(roots, r)
+			} else {
+				freeUses[string(r.Data)] += int(r.Uses)
 			}
 		}
 	}
@@ -326,10 +329,17 @@ func observe(ast *js.AST, names []string) (string, []int, [][2]int) {
 			}
 		}
 		labels = append(labels, -idx)
+		count[-idx]++
 	}
 	uses := [][2]int{}
 	for k, r := range roots {
 		uses = append(uses, [2]int{int(r.Uses), count[k+1]})
+	}
+	// "every Var's Uses": also the undeclared variables, per name (they are one Var of the outermost scope each)
+	for i, n := range names {
+		if u, ok := freeUses[n]; ok || count[-(i+1)] > 0 {
+			uses = append(uses, [2]int{u, count[-(i+1)]})
+		}
 	}
 	return text, labels, uses
 }
